@@ -3,8 +3,8 @@ from fractions import Fraction
 from ..core import f2b, b2f
 from .. import samples as S, sample_checks as SC, kin, exact as X
 
-MODULE = "Momtrop.Props.C10Model"
-THEOREMS = ["Momtrop.C10.momenta_eq", "Momtrop.C10.shift_eq", "Momtrop.C10.qTInv_whitens", "Momtrop.C10.propSum_at_sample", "Momtrop.C10.propSum_total", "Momtrop.C10.model_identity"]
+MODULE = "Momtrop.Props.C10Law"
+THEOREMS = ["Momtrop.C10.momenta_eq", "Momtrop.C10.shift_eq", "Momtrop.C10.qTInv_whitens", "Momtrop.C10.propSum_at_sample", "Momtrop.C10.propSum_total", "Momtrop.C10.model_identity", "Momtrop.C10.gaussian_affine", "Momtrop.C10.momenta_law"]
 RULE = ("accepted connected graphs with 1..3 (quick) / 1..5 (thorough) loops, D=1..6, masses, shifts with offsets, non-fundamental bases and "
         "sparse face bases; shifts on a subset of loops only (some u_l exactly zero) included; the scalar identity "
         "sum_e x_e(|q_e|^2+m_e^2) = v(1+|q|^2/(2 lambda)) is evaluated exactly at the returned momenta. Non-trivial: L>=2")
